@@ -151,6 +151,9 @@ pub fn check_state(rp: &Position, board: &Board, played: bool, props: &Props, wa
             if special_only && !is_special(rp, m) {
                 continue;
             }
+            if props.double_push_only && !(rp.at(m.from).map(|x| x.1) == Some(Pc::P) && (refchess::rank_of(m.from) - refchess::rank_of(m.to)).abs() == 2) {
+                continue;
+            }
             let crp = rp.make(m);
             transitions += 1;
             let cb = if props.c02 {
@@ -162,6 +165,31 @@ pub fn check_state(rp: &Position, board: &Board, played: bool, props: &Props, wa
             };
             // a wrong successor must not cascade: continue from the rebuilt twin when it differs
             let twin = parse_board(&crp.to_fen()).ok();
+            if props.c01 {
+                if let (Some(c), Some(t)) = (&cb, &twin) {
+                    if c != t {
+                        // the position REACHED BY PLAY is what C01 quantifies over: check the generator on
+                        // the played board itself before the exploration continues from the rebuilt twin
+                        let cl = crp.legal_moves();
+                        let mut cst = StateStats::default();
+                        let mut p1 = *props;
+                        p1.full_sweep = false;
+                        for x in c01_state(&crp, c, &cl, &p1, &mut cst) {
+                            d.push(Divergence::new(format!("on-played-board:{}", x.class), format!("after {} from {}: {}", m.uci(), rp.to_fen(), x.detail)));
+                        }
+                    }
+                }
+            }
+            if props.c03 {
+                if let (Some(c), Some(t)) = (&cb, &twin) {
+                    if c != t {
+                        d.push(Divergence::new(
+                            "stale:played-successor-not-equal-to-rebuilt",
+                            format!("{} after {}: the board reached by the move differs (placement, side, rights or marker) from parse('{}'); it writes '{}'", rp.to_fen(), m.uci(), crp.to_fen(), c),
+                        ));
+                    }
+                }
+            }
             let cb = match (cb, twin) {
                 (Some(c), Some(t)) => Some(if c == t { c } else { t }),
                 (None, t) => t,
@@ -310,6 +338,14 @@ fn for_each_king_pair(mut f: impl FnMut(u8, u8)) {
 
 #[derive(Clone, Copy, PartialEq, Eq, Debug)]
 pub enum Family {
+    /// the positions ONE PLY BEFORE the members of `Ep`: the pawn still on its origin square and
+    /// its side to move; only the double push is played, and the board reached by that move (marker
+    /// set by the move code, not by the parser) is checked
+    EpPlayed,
+    /// pawn on the 7th, a black bishop/queen on the 8th rank diagonally adjacent (capturable with
+    /// promotion), the white king on every square of the diagonal behind the pawn (so the pawn is
+    /// pinned and may only capture its pinner) and on two squares off it, black king anywhere
+    PromoPin,
     /// one white pawn anywhere on ranks 2-6, black king anywhere, white king in a corner,
     /// optionally a black knight on one of the pawn's capture squares: single pushes, double
     /// pushes and pawn captures that give (or do not give) direct check
@@ -332,6 +368,60 @@ pub fn family_positions(fam: Family, level: u8) -> Vec<Position> {
     let mut out = vec![];
     let extras = [Pc::Q, Pc::R, Pc::B, Pc::N];
     match fam {
+        Family::EpPlayed => {
+            for m in family_positions(Family::Ep, level) {
+                let Some(f) = m.ep else { continue };
+                let mut p = m.clone();
+                // white to move with the marker on file f: the black pawn stands on (f,4), came from (f,6)
+                if p.board[sq(f, 6) as usize].is_some() || p.board[sq(f, 5) as usize].is_some() {
+                    continue;
+                }
+                p.board[sq(f, 4) as usize] = None;
+                p.board[sq(f, 6) as usize] = Some((Col::B, Pc::P));
+                p.ep = None;
+                p.turn = Col::B;
+                if p.valid_root().is_ok() {
+                    out.push(p);
+                }
+            }
+        }
+        Family::PromoPin => {
+            for f in 0..8i8 {
+                for d in [-1i8, 1] {
+                    if !(0..8).contains(&(f + d)) {
+                        continue;
+                    }
+                    for pinner in [Pc::B, Pc::Q] {
+                        let mut base = Position::empty();
+                        base.turn = Col::W;
+                        base.full = 1;
+                        place(&mut base, sq(f, 6), Col::W, Pc::P);
+                        place(&mut base, sq(f + d, 7), Col::B, pinner);
+                        // squares behind the pawn on the pin diagonal, plus two off-diagonal squares
+                        let mut wks: Vec<u8> = vec![];
+                        let (mut x, mut y) = (f - d, 5i8);
+                        while (0..8).contains(&x) && y >= 0 {
+                            wks.push(sq(x, y));
+                            x -= d;
+                            y -= 1;
+                        }
+                        wks.push(sq(f, 0));
+                        wks.push(sq((f + 4) % 8, 3));
+                        for wk in wks {
+                            for bk in 0..64u8 {
+                                let mut p = base.clone();
+                                if !place(&mut p, wk, Col::W, Pc::K) || !place(&mut p, bk, Col::B, Pc::K) {
+                                    continue;
+                                }
+                                if p.valid_root().is_ok() {
+                                    out.push(p);
+                                }
+                            }
+                        }
+                    }
+                }
+            }
+        }
         Family::PawnPush => {
             for ps in 8..48u8 {
                 let (pf, pr) = ((ps % 8) as i8, (ps / 8) as i8);
@@ -441,11 +531,8 @@ pub fn family_positions(fam: Family, level: u8) -> Vec<Position> {
         Family::Ep => {
             // black pawn just double-stepped to (f,4); white capturer(s) beside it; one extra black piece
             for f in 0..8i8 {
-                let sides: Vec<Vec<i8>> = if level == 0 {
-                    vec![vec![-1], vec![1]]
-                } else {
-                    vec![vec![-1], vec![1], vec![-1, 1]]
-                };
+                // one capturer on either side, or both (two move-list entries for the same victim)
+                let sides: Vec<Vec<i8>> = vec![vec![-1], vec![1], vec![-1, 1]];
                 for caps in &sides {
                     if caps.iter().any(|d| !(0..8).contains(&(f + d))) {
                         continue;
@@ -609,6 +696,9 @@ pub fn run_family(fam: Family, level: u8, props: &Props, child_props: Option<&Pr
                         t.family_rejected_invalid += 1;
                         continue;
                     }
+                    let mut fam_props = *props;
+                    fam_props.double_push_only = fam == Family::EpPlayed;
+                    let props = &fam_props;
                     t.family_positions += 1;
                     let fen = p.to_fen();
                     let Ok(board) = parse_board(&fen) else {
